@@ -3,6 +3,7 @@ import Proofs.C18Heap
 import Proofs.C18Snappy
 import Proofs.C18SnappyStream
 import Proofs.C18Lz4Block
+import Proofs.C18Lz4Stream
 import Model.CompressRecv
 import Model.CompressSend
 /-!
@@ -388,6 +389,36 @@ theorem C18_lz4_format_delivered (x : Bytes) (hx : x.length < 4294967296) :
 example : (lz4Encode lz4Ref [7, 8, 9]).toOption = some [0, 0, 0, 3, 0x30, 7, 8, 9] ∧
     (lz4Decode lz4Ref [0, 0, 0, 3, 0x30, 7, 8, 9]).toOption = some [7, 8, 9] ∧
     (lz4Decode lz4Ref [0, 0, 0, 0]).toOption = some [] := by decide
+
+/-- **The LZ4 block decoder inverts EVERY encoder of the format.** For every list of sequences that
+    is well-formed (matches of at least 4 bytes from 1..65535 bytes back, never from before the start of
+    the output; literal and match lengths of any size, written as nibble + 255-extension bytes) and any
+    last literals — whatever matcher chose them —: the block decodes, into any destination that is large
+    enough, to the LZ77 meaning of the sequences; so through lz4.go's wrapper a body is delivered as soon
+    as the sequences CompressBlock emits MEAN the body (second part: prefix = body length, one block). -/
+theorem C18_lz4_decodes_any_stream (qs : List Lz4Sq) (last : Bytes) (hwf : lz4WF 0 qs) :
+    (∀ n, (lz4Interp qs last #[]).size ≤ n →
+        lz4BlockDecode (lz4Ser qs last) n = .ok (lz4Interp qs last #[]).toList) ∧
+    ∀ x : Bytes, (lz4Interp qs last #[]).toList = x → x.length < 4294967296 →
+      lz4Decode lz4Ref (be32 x.length ++ lz4Ser qs last) = .ok x := by
+  refine ⟨fun n hn => lz4BlockDecode_stream qs last n hwf hn, fun x hx hlen => ?_⟩
+  have hl : x.length = (lz4Interp qs last #[]).size := by rw [← hx]; simp
+  rw [lz4Decode_be32 lz4Ref x.length hlen]
+  by_cases h0 : x.length = 0
+  · have : x = [] := List.eq_nil_of_length_eq_zero h0
+    simp [this]
+  · rw [if_neg h0]
+    show lz4BlockDecode (lz4Ser qs last) x.length = .ok x
+    rw [lz4BlockDecode_stream qs last x.length hwf (by omega), hx]
+
+/-- non-vacuity: literals "AB", an overlapping match (offset 1, length 6), last literals "C" -/
+example :
+    let qs : List Lz4Sq := [{ lits := [0x41, 0x42], offset := 1, mlen := 6 }]
+    lz4WF 0 qs ∧ lz4Ser qs [0x43] = [0x22, 0x41, 0x42, 0x01, 0x00, 0x10, 0x43] ∧
+    (lz4Interp qs [0x43] #[]).toList = [0x41, 0x42, 0x42, 0x42, 0x42, 0x42, 0x42, 0x42, 0x43] ∧
+    (lz4Decode lz4Ref ([0, 0, 0, 9] ++ lz4Ser qs [0x43])).toOption
+      = some [0x41, 0x42, 0x42, 0x42, 0x42, 0x42, 0x42, 0x42, 0x43] := by
+  refine ⟨by simp [lz4WF, Lz4Sq.wf, Lz4Sq.size], by decide, by decide, by decide⟩
 
 /-- the format's decoder on matches: a literal then an OVERLAPPING match (offset 1: a run), then the
     last literals; and the errors of the format: offset 0, an offset before the start of the output, a
